@@ -92,6 +92,7 @@ structure RtImpl where
   readN : Nat := 0
   rtxs : List Tx := []
   same : List (List Bool) := []
+  sbuf : Option String := none
   panic : Bool := false
   bad : Bool := false
 
@@ -110,6 +111,7 @@ def parseRtImpl (lines : List (List String)) : RtImpl :=
     | "impl" :: "rtx" :: t =>
       match txTok? t with | some x => { st with rtxs := st.rtxs ++ [x] } | none => { st with bad := true }
     | "impl" :: "same" :: _ :: bits => { st with same := st.same ++ [bits.map (· == "1")] }
+    | "impl" :: "sbuf" :: rest => { st with sbuf := some (String.intercalate " " rest) }
     | "impl" :: "panic" :: _ => { st with panic := true }
     | _ => st) {}
 
@@ -153,7 +155,11 @@ def runRt (c : Case) : Res :=
             (if memosTrimmed && a != b then ["second write differs from the first"] else []) ++
             (if b != c then ["third write differs from the second"] else [])
           | _, _, _ => ["missing bytes"]
-        e1 ++ e2 ++ e3
+        -- the in-memory writer produces the same bytes as a file would
+        let e4 := match im.sbuf with
+          | some "same" | none => []
+          | some other => [s!"writing the same list into the in-memory writer (WriteHandle string buffer): {other}"]
+        e1 ++ e2 ++ e3 ++ e4
     -- ---------------- correspondence
     let dAff := txs.filterMap (fun t =>
       if fromStrep t.affiliate.name == t.affiliate then none
